@@ -1,5 +1,6 @@
 import WindVerif.Proofs.Combos
 import WindVerif.Proofs.CombosK
+import WindVerif.Proofs.ScanSteps
 /-!
 # C17 — sorted_combinations is complete and key-ordered; min-combination search exact
 
@@ -126,5 +127,131 @@ example : sortedCombinationsK (fun i => i) (fun c => 3 - c.length) 2 = [([0], 2)
 
 /-- non-vacuity -/
 example : allCombos 2 = [[1], [0], [0, 1]] := by decide
+
+/-! ### how far `min_combinations_in_interval_iter_sorted` walks into the stream (`Model/ScanSteps.lean`)
+
+`scanSteps iStart iEnd res stream` counts the stream elements the loop pulls (the one on which it breaks included);
+`minCombinationsSteps scores iStart iEnd` is the count for the anchored call (stream = `sortedCombinations scores`). -/
+
+/-- the loop with both outputs `(result, elements pulled)` is `minCombScan` together with `scanSteps`: the count is taken
+on the very scan the result theorems above speak about -/
+theorem scan_steps_result (iStart iEnd : Int) (stream res : List (List Nat × Nat)) :
+    minCombScanSteps iStart iEnd res stream = (minCombScan iStart iEnd res stream, scanSteps iStart iEnd res stream) := by
+  first | exact WindVerif.Generic.scan_steps_result .. | (apply WindVerif.Generic.scan_steps_result <;> assumption)
+
+/-- never more than the stream holds -/
+theorem steps_le_length (iStart iEnd : Int) (stream res : List (List Nat × Nat)) :
+    scanSteps iStart iEnd res stream ≤ stream.length := by
+  first | exact WindVerif.Generic.steps_le_length .. | (apply WindVerif.Generic.steps_le_length <;> assumption)
+
+/-- the interval ends at or below the first sum of the stream: the loop breaks on the first element (one element pulled),
+nothing is returned -/
+theorem early_exit_first (iStart iEnd : Int) (stream : List (List Nat × Nat)) (p : List Nat × Nat)
+    (hhead : stream.head? = some p) (hend : iEnd ≤ (p.2 : Int)) :
+    scanSteps iStart iEnd [] stream = 1 ∧ minCombScan iStart iEnd [] stream = [] := by
+  first | exact WindVerif.Generic.early_exit_first .. | (apply WindVerif.Generic.early_exit_first <;> assumption)
+
+/-- non-vacuity: an inverted interval `[9, 3)` below the sums 5, 7 -/
+example : ([([0], 5), ([1], 7)] : List (List Nat × Nat)).head? = some ([0], 5) ∧ (3 : Int) ≤ ((([0], 5) : List Nat × Nat).2 : Int) := by
+  decide
+
+/-- in a stream sorted by sum the first element carries the least sum (so "at or below the first sum" is "at or below the
+least sum") -/
+theorem sorted_head_least (stream : List (List Nat × Nat)) (p : List Nat × Nat)
+    (hsorted : (stream.map (·.2)).Pairwise (· ≤ ·)) (hhead : stream.head? = some p) : ∀ q ∈ stream, p.2 ≤ q.2 := by
+  first | exact WindVerif.Generic.sorted_head_least .. | (apply WindVerif.Generic.sorted_head_least <;> assumption)
+
+/-- the interval ends at or below every sum of a non-empty stream: one element pulled, nothing returned -/
+theorem early_exit_below_all (iStart iEnd : Int) (stream : List (List Nat × Nat)) (hne : stream ≠ [])
+    (hend : ∀ p ∈ stream, iEnd ≤ (p.2 : Int)) :
+    scanSteps iStart iEnd [] stream = 1 ∧ minCombScan iStart iEnd [] stream = [] := by
+  first | exact WindVerif.Generic.early_exit_below_all .. | (apply WindVerif.Generic.early_exit_below_all <;> assumption)
+
+example : ([([0], 5), ([1], 7)] : List (List Nat × Nat)) ≠ [] ∧
+    ∀ p ∈ ([([0], 5), ([1], 7)] : List (List Nat × Nat)), (3 : Int) ≤ (p.2 : Int) := by decide
+
+/-- sorted stream holding a sum in the interval, `k` the least such sum (`LeastIn`): the loop pulls the elements with a sum
+`≤ k` and one more — the first larger sum, on which it breaks — or the whole stream when there is no larger sum -/
+theorem exit_after_min_block (iStart iEnd : Int) (l : List (List Nat × Nat)) (k : Nat)
+    (hsorted : (l.map (·.2)).Pairwise (· ≤ ·)) (hleast : LeastIn iStart iEnd l k) :
+    scanSteps iStart iEnd [] l = min (l.countP (fun p => decide (p.2 ≤ k)) + 1) l.length := by
+  first | exact WindVerif.Generic.exit_after_min_block .. | (apply WindVerif.Generic.exit_after_min_block <;> assumption)
+
+/-- … a larger sum exists: the sums `≤ k` and the first larger one -/
+theorem exit_after_min_block_larger (iStart iEnd : Int) (l : List (List Nat × Nat)) (k : Nat)
+    (hsorted : (l.map (·.2)).Pairwise (· ≤ ·)) (hleast : LeastIn iStart iEnd l k) (hlarger : ∃ p ∈ l, k < p.2) :
+    scanSteps iStart iEnd [] l = l.countP (fun p => decide (p.2 ≤ k)) + 1 := by
+  first | exact WindVerif.Generic.exit_after_min_block_larger .. | (apply WindVerif.Generic.exit_after_min_block_larger <;> assumption)
+
+/-- … no larger sum: the whole stream -/
+theorem exit_after_min_block_all (iStart iEnd : Int) (l : List (List Nat × Nat)) (k : Nat)
+    (hsorted : (l.map (·.2)).Pairwise (· ≤ ·)) (hleast : LeastIn iStart iEnd l k) (hall : ∀ p ∈ l, p.2 ≤ k) :
+    scanSteps iStart iEnd [] l = l.length := by
+  first | exact WindVerif.Generic.exit_after_min_block_all .. | (apply WindVerif.Generic.exit_after_min_block_all <;> assumption)
+
+/-- every element the loop looks at, except the last one, has a sum `≤` the least sum in the interval -/
+theorem inspected_le_min (iStart iEnd : Int) (l : List (List Nat × Nat)) (k : Nat)
+    (hsorted : (l.map (·.2)).Pairwise (· ≤ ·)) (hleast : LeastIn iStart iEnd l k) :
+    ∀ p ∈ l.take (scanSteps iStart iEnd [] l - 1), p.2 ≤ k := by
+  first | exact WindVerif.Generic.inspected_le_min .. | (apply WindVerif.Generic.inspected_le_min <;> assumption)
+
+/-- non-vacuity: sums 1, 3, 3, 4, 6 and the interval `[2, 10)`: least sum in the interval 3, a larger sum exists; 4 of the 5
+elements are pulled -/
+example : (([([0], 1), ([1], 3), ([2], 3), ([0, 1], 4), ([0, 2], 6)] : List (List Nat × Nat)).map (·.2)).Pairwise (· ≤ ·) ∧
+    LeastIn 2 10 [([0], 1), ([1], 3), ([2], 3), ([0, 1], 4), ([0, 2], 6)] 3 ∧
+    (∃ p ∈ ([([0], 1), ([1], 3), ([2], 3), ([0, 1], 4), ([0, 2], 6)] : List (List Nat × Nat)), 3 < p.2) ∧
+    scanSteps 2 10 [] [([0], 1), ([1], 3), ([2], 3), ([0, 1], 4), ([0, 2], 6)] = 4 := by
+  unfold LeastIn; decide
+
+/-- non-vacuity (no larger sum): sums 1, 3, 3 -/
+example : LeastIn 2 10 [([0], 1), ([1], 3), ([2], 3)] 3 ∧
+    (∀ p ∈ ([([0], 1), ([1], 3), ([2], 3)] : List (List Nat × Nat)), p.2 ≤ 3) ∧
+    scanSteps 2 10 [] [([0], 1), ([1], 3), ([2], 3)] = 3 := by
+  unfold LeastIn; decide
+
+/-- sorted stream with NO sum in the interval: the loop pulls the sums below `iEnd` and one more (the first sum `≥ iEnd`),
+or the whole stream when every sum is below `iEnd` -/
+theorem exit_at_interval_end (iStart iEnd : Int) (l : List (List Nat × Nat))
+    (hsorted : (l.map (·.2)).Pairwise (· ≤ ·))
+    (hnone : ∀ y ∈ l, ¬ (iStart ≤ (y.2 : Int) ∧ (y.2 : Int) < iEnd)) :
+    scanSteps iStart iEnd [] l = min (l.countP (fun p => decide ((p.2 : Int) < iEnd)) + 1) l.length := by
+  first | exact WindVerif.Generic.exit_at_interval_end .. | (apply WindVerif.Generic.exit_at_interval_end <;> assumption)
+
+/-- non-vacuity: sums 1, 3, 7, 9 and the interval `[4, 6)`: 3 of the 4 elements are pulled -/
+example : (([([0], 1), ([1], 3), ([2], 7), ([0, 1], 9)] : List (List Nat × Nat)).map (·.2)).Pairwise (· ≤ ·) ∧
+    (∀ y ∈ ([([0], 1), ([1], 3), ([2], 7), ([0, 1], 9)] : List (List Nat × Nat)), ¬ ((4 : Int) ≤ (y.2 : Int) ∧ (y.2 : Int) < 6)) ∧
+    scanSteps 4 6 [] [([0], 1), ([1], 3), ([2], 7), ([0, 1], 9)] = 3 := by decide
+
+/-- `min_combinations_in_interval_iter_sorted` with an interval that ends at or below the least score (inverted and empty
+intervals there included): ONE combination is pulled from `sorted_combinations`, nothing is returned -/
+theorem min_combinations_inverted_interval_steps (scores : List Nat) (iStart iEnd : Int) (hne : scores ≠ [])
+    (hend : ∀ x ∈ scores, iEnd ≤ (x : Int)) :
+    minCombinationsSteps scores iStart iEnd = 1 ∧ minCombinations scores iStart iEnd = [] := by
+  first | exact WindVerif.Generic.min_combinations_inverted_interval_steps .. | (apply WindVerif.Generic.min_combinations_inverted_interval_steps <;> assumption)
+
+/-- the same with the least score named through `List.min?` -/
+theorem min_combinations_inverted_interval_steps_min (scores : List Nat) (iStart iEnd : Int) (m : Nat)
+    (hmin : scores.min? = some m) (hend : iEnd ≤ (m : Int)) :
+    minCombinationsSteps scores iStart iEnd = 1 ∧ minCombinations scores iStart iEnd = [] := by
+  first | exact WindVerif.Generic.min_combinations_inverted_interval_steps_min .. | (apply WindVerif.Generic.min_combinations_inverted_interval_steps_min <;> assumption)
+
+/-- non-vacuity: scores [3, 2, 5], interval `[100, 2)` -/
+example : ([3, 2, 5] : List Nat) ≠ [] ∧ (∀ x ∈ ([3, 2, 5] : List Nat), (2 : Int) ≤ (x : Int)) ∧
+    ([3, 2, 5] : List Nat).min? = some 2 ∧ minCombinationsSteps [3, 2, 5] 100 2 = 1 := by decide
+
+/-- any interval: at most all the combinations -/
+theorem min_combinations_steps_le (scores : List Nat) (iStart iEnd : Int) :
+    minCombinationsSteps scores iStart iEnd ≤ (sortedCombinations scores).length := by
+  first | exact WindVerif.Generic.min_combinations_steps_le .. | (apply WindVerif.Generic.min_combinations_steps_le <;> assumption)
+
+/-- the early exit matters.  `scanStepsNoEarly` tests `i_end <= comb_score` only for sums `≥ i_start`: on the scores
+`[1, 1, 1, 1]` and the interval `[100, 0)` it walks all 15 combinations where the loop breaks on the first one; the results
+are the same (nothing) -/
+theorem early_exit_witness :
+    scanSteps 100 0 [] (sortedCombinations [1, 1, 1, 1]) = 1 ∧
+    scanStepsNoEarly 100 0 [] (sortedCombinations [1, 1, 1, 1]) = 15 ∧
+    (sortedCombinations [1, 1, 1, 1]).length = 15 ∧
+    (minCombScanNoEarly 100 0 [] (sortedCombinations [1, 1, 1, 1])).1 = minCombinations [1, 1, 1, 1] 100 0 := by
+  first | exact WindVerif.Generic.early_exit_witness .. | (apply WindVerif.Generic.early_exit_witness <;> assumption)
 
 end WindVerif.C17
